@@ -3,6 +3,7 @@ import glob, os
 import verif
 from verif import Unit, rc_params
 
+ENGINE = "enumeration+rapidcheck"
 ID = "C16"
 TECHNIQUE = ("differential testing against an independent implementation: a seed-independent grid (every message length 0..4096 x 6 digests, "
              "every HMAC key length 0..3 blocks+1, every pair of append cut points, every AES block count 1..64) plus rapidcheck cases "
